@@ -36,30 +36,34 @@ def handshake_dup(ctx):
     stored for retransmission; nothing calls the DUP setter of the PUBLISH builder."""
     hm = ctx.outbound_handler()
     effs = ctx.effects(hm)
-    guards = type_guards(ctx, hm)
-    if "PUBLISH" not in guards:
-        raise AnchorLost("PUBLISH type guard in the outbound handler")
-    region = arm_region(hm, guards["PUBLISH"][1])
+    from outpaths import ArmPaths
+    ap = ArmPaths(ctx, hm, "AwaitAck")
+    if "PUBLISH" not in ap.classes:
+        raise AnchorLost("PUBLISH type test (packet[0] >> 4 == PublishTx::PACKET_ID) in the outbound handler")
+    region = ap.only("PUBLISH")
+    on_publish = ap.blocks_of("PUBLISH")
     dupbit = 1 << ctx.spec("flags")["publish_header"]["dup"]
     out = []
     writes = buffer_byte_writes(hm)
-    pub_w = [e for e in effs if e.kind == "TxWrite" and e.bb in region]
-    pushes = [e for e in effs if e.kind == "Push" and "retrasmit_queue" in e.detail["fields"] and e.bb in region]
+    pub_w = [e for e in effs if e.kind == "TxWrite" and e.bb in on_publish]
+    pushes = [e for e in effs if e.kind == "Push" and "retrasmit_queue" in e.detail["fields"] and e.bb in on_publish]
     if not pub_w:
-        raise AnchorLost("TxWrite in region(PUBLISH)")
-    comp = hm.completion_of(pub_w[0].inner_bb)
+        raise AnchorLost("TxWrite on the PUBLISH paths of the outbound handler")
+    comps = {e.inner_bb: hm.completion_of(e.inner_bb) for e in pub_w}
+    ready = {c["ready_bb"] for c in comps.values() if c}
     for i, st, at in writes:
         site = "%s:%d" % (hm.fn["file"], st["line"])
         rv = st["rv"]
         ok_op = rv["k"] == "bin" and rv["op"] == "BitOr" and hm.fold(rv["b"]) == dupbit
         idx0 = any(a[0] == "const" and a[1] == 0 for a in at) or any(a[0] == "call" and (a[1].endswith("first_mut")) for a in at)
         out.append(Inst("HANDSHAKE-DUP", "write:%s" % ("dup" if ok_op else "other"), ok_op and idx0 and i in region, site,
-                        "in-place buffer write: %s %s on byte index0=%s, in region(PUBLISH)=%s" % (rv.get("op"), hm.fold(rv["b"]) if rv["k"] == "bin" else "?", idx0, i in region),
+                        "in-place buffer write: %s %s on byte index0=%s, only on PUBLISH paths=%s" % (rv.get("op"), hm.fold(rv["b"]) if rv["k"] == "bin" else "?", idx0, i in region),
                         "only `byte0 |= 1 << 3` (DUP) for a PUBLISH"))
-        after = comp is not None and hm.dominates(comp["ready_bb"], i)
-        out.append(Inst("HANDSHAKE-DUP", "dup-after-write", after, site, "DUP set %s the completed first write" % ("after" if after else "NOT after"), "DUP=0 on the wire, DUP=1 only on the stored copy"))
+        after, _n = ap.precedes("PUBLISH", ready, i)
+        out.append(Inst("HANDSHAKE-DUP", "dup-after-write", after, site, "DUP set %s the completed first write on every PUBLISH path" % ("after" if after else "NOT after"), "DUP=0 on the wire, DUP=1 only on the stored copy"))
         for p in pushes:
-            out.append(Inst("HANDSHAKE-DUP", "dup-before-store", hm.dominates(i, p.bb), p.site(), "stored copy pushed %s the DUP bit is set" % ("after" if hm.dominates(i, p.bb) else "NOT after"),
+            before, _n = ap.precedes("PUBLISH", {i}, p.bb)
+            out.append(Inst("HANDSHAKE-DUP", "dup-before-store", before, p.site(), "stored copy pushed %s the DUP bit is set" % ("after" if before else "NOT after"),
                             "the retransmission copy carries DUP=1 (C17)"))
     if not writes:
         out.append(Inst("HANDSHAKE-DUP", "no-dup-set", False, pub_w[0].site(), "the stored PUBLISH copy never gets the DUP bit", "DUP=1 on the stored copy"))
@@ -676,19 +680,31 @@ def resume_pair(ctx):
     classes = set()
     out = []
     rel = ctx.spec("acks")["retransmit_release"]
+    from outpaths import ArmPaths
+    ap = ArmPaths(ctx, hm, "AwaitAck")
     for e in pushes:
-        reg = None
-        for ty, (gb, gs, go) in guards.items():
-            if hm.dominates(gs, e.bb):
-                reg = ty
-        if reg == "PUBLISH":
-            classes |= {"Puback", "Pubrec"}
-        elif reg == "PUBREL":
-            classes |= {"Pubcomp"}
-        else:
-            out.append(Inst("RESUME-PAIR", "push:unclassified", False, e.site(), "push to retrasmit_queue outside region(PUBLISH)/region(PUBREL)", "only unfinished handshakes are stored"))
+        # the packet types for which a path reaches this push (path-sensitive: the type may be tested around it)
+        regs = ap.class_of_block(e.bb)
+        for reg in regs:
+            if reg == "PUBLISH":
+                classes |= {"Puback", "Pubrec"}
+            elif reg == "PUBREL":
+                classes |= {"Pubcomp"}
+            else:
+                out.append(Inst("RESUME-PAIR", "push:unclassified", False, e.site(), "push to retrasmit_queue on a path of packet class %s" % reg, "only unfinished handshakes (PUBLISH, PUBREL) are stored"))
+        if not regs:
+            out.append(Inst("RESUME-PAIR", "push:unclassified", False, e.site(), "push to retrasmit_queue outside the acknowledged-request arm", "only unfinished handshakes are stored"))
         keyok = any(a[0] == "field" and a[2] == "action_id" for a in set().union(*e.detail["args"]))
-        out.append(Inst("RESUME-PAIR", "push:%s:keyed" % reg, keyok, e.site(), "stored under msg.action_id=%s" % keyok, "stored under the key the acknowledgement will carry"))
+        out.append(Inst("RESUME-PAIR", "push:%s:keyed" % "+".join(regs), keyok, e.site(), "stored under msg.action_id=%s" % keyok, "stored under the key the acknowledgement will carry"))
+    # every PUBLISH / PUBREL that was written and registered is also stored
+    okp = lambda p: exit_kind(hm, p) == "ok"
+    for cls in ("PUBLISH", "PUBREL"):
+        regs_ = [e for e in effs if e.kind == "Push" and "awaiting_ack" in e.detail["fields"] and cls in ap.class_of_block(e.bb)]
+        for r_ in regs_:
+            hold, n = ap.followed_by(cls, r_.bb, {e.bb for e in pushes}, only_ok=okp)
+            hold2, n2 = ap.precedes(cls, {e.bb for e in pushes}, r_.bb)
+            out.append(Inst("RESUME-PAIR", "stored-when-registered:%s" % cls, (hold or hold2) and (n + n2) > 0, r_.site(),
+                            "on every %s path that registers the waiter the packet is also stored for retransmission: %s" % (cls, hold or hold2), "an unfinished handshake is always stored"))
     sw, arms, otherwise, other_vs, _ = match_arms(hp, RXPACKET)
     rems = [e for e in ctx.effects(hp) if e.kind == "Remove" and "retrasmit_queue" in e.detail["fields"]]
     rem_arms = {}
@@ -698,7 +714,8 @@ def resume_pair(ctx):
         if arm == "otherwise":
             arm = _refine_other(hp, e.bb, other_vs)
         keyed = e.detail["how"] == "keyed" and any(a[0] == "call" and a[1].endswith("rx_action_id") for a in e.detail["recv"] | set().union(*e.detail["args"]) if True)
-        rem_arms.setdefault(arm, []).append((e, keyed))
+        for arm1 in str(arm).split("|"):      # a body shared by `A | B` patterns belongs to both arms
+            rem_arms.setdefault(arm1, []).append((e, keyed))
     for c in sorted(classes):
         got = rem_arms.get(c)
         if not got:
@@ -767,46 +784,65 @@ def resume_order(ctx):
     """R3/R5/R6: in run() the replay happens only on a reconnect, before the select loop, preceded by
     reset_session exactly when the session expired; retransmit writes the stored bytes front to back,
     awaiting each write; reset_session clears every collection; set_up/connect never touch the session."""
-    run = ctx.run_body()
+    run = ctx.run_body()        # flattened: the replay helper(s) are inlined, whatever they are called
     out = []
-    rt = list(run.calls(r"Context::retransmit$"))
-    rs = list(run.calls(r"Context::reset_session$"))
-    if len(rt) != 1:
-        raise AnchorLost("exactly one retransmit call in run (found %d)" % len(rt))
-    rtb = rt[0][0]
-    # dominated by true edge of is_reconnect
+    effs = ctx.effects(run)
+    w = [e for e in effs if e.kind == "TxWrite" and any(a[0] == "field" and a[1] == SESSION and a[2] == "retrasmit_queue" for a in e.detail["buf"])]
+    if len(w) != 1:
+        raise AnchorLost("exactly one write of the stored packets (Session.retrasmit_queue) in run (found %d)" % len(w))
+    rtb = w[0].inner_bb
+
+    def edge_truth(c, s_):
+        t = c.holds_on(s_)
+        return None if t is None else (t ^ bool(c.neg))
+
+    def is_reconnect_test(c):
+        if c.kind == "call" and (c.callee or "").endswith("is_reconnect"):
+            return True
+        if c.kind == "call" and c.callee in ("is_some", "is_none"):
+            return any(a[0] == "field" and a[2] == "disconnection_timestamp" for x in c.args for a in run.atoms(x))
+        return False
+    # dominated by the edge on which this is a reconnect
     on_reconnect = False
     for (d, s_) in dominating_edges(run, rtb):
         c = Cond(run, d)
-        if c.kind == "call" and (c.callee or "").endswith("is_reconnect") and c.holds_on(s_) is True and not c.neg:
-            on_reconnect = True
-    out.append(Inst("RESUME-ORDER", "replay-only-on-reconnect", on_reconnect, run.site(rtb), "retransmit %s dominated by the true edge of is_reconnect" % ("is" if on_reconnect else "is NOT"), "nothing is re-sent on a first connection"))
-    # dominates the select loop: every await of poll_fn (select!) is dominated by completion of retransmit or lies on the non-reconnect path
+        if is_reconnect_test(c):
+            t = edge_truth(c, s_)
+            if c.kind == "call" and c.callee == "is_none":
+                t = None if t is None else not t
+            if t is True:
+                on_reconnect = True
+    out.append(Inst("RESUME-ORDER", "replay-only-on-reconnect", on_reconnect, run.site(rtb), "the replay write %s dominated by the edge on which is_reconnect holds" % ("is" if on_reconnect else "is NOT"), "nothing is re-sent on a first connection"))
+    # before the select loop: the replay write is not reachable from any await of the select
     comp = run.completion_of(rtb)
     sel = [a for a in run.awaits() if "PollFn" in ((run.term(a["poll_bb"])["callee"].get("self_ty") or "") + (run.term(a["poll_bb"])["callee"].get("resolved") or ""))]
-    ok = comp is not None and bool(sel) and all(not run.reachable_from(a["poll_bb"]) & {rtb} for a in sel)
-    out.append(Inst("RESUME-ORDER", "replay-before-new-traffic", ok, run.site(rtb), "retransmit is awaited before the select loop and is not reachable from it: %s" % ok, "replay before any new traffic"))
-    # reset_session exactly on the true edge of session_expired, before retransmit
+    ok = comp is not None and bool(sel) and all(not run.reachable_from(a["poll_bb"]) & {rtb} for a in sel) and all(a["poll_bb"] in run.reachable_from(rtb) for a in sel)
+    out.append(Inst("RESUME-ORDER", "replay-before-new-traffic", ok, run.site(rtb), "the replay is awaited before the select loop and is not reachable from it: %s" % ok, "replay before any new traffic"))
+    # the session is reset exactly on the edge on which it has expired, before the replay
+    rs = list(run.calls(r"Context::reset_session$"))
+    clears = [e for e in effs if e.kind == "Clear" and e.detail["fields"]]
+    reset_bbs = [i for i, _ in rs] or sorted({e.bb for e in clears})
     okr = False
-    if len(rs) == 1:
-        rb = rs[0][0]
-        deps = run.control_deps.get(rb, set())
-        for (d, s_) in deps:
+    if reset_bbs:
+        rb = reset_bbs[0]
+        for (d, s_) in run.control_deps.get(rb, set()):
             c = Cond(run, d)
-            if c.kind == "call" and (c.callee or "").endswith("session_expired") and c.holds_on(s_) is True and not c.neg:
+            if c.kind == "call" and (c.callee or "").endswith("session_expired") and edge_truth(c, s_) is True:
                 okr = rtb in run.reachable_from(rb) and rb not in run.reachable_from(rtb)
-    out.append(Inst("RESUME-ORDER", "reset-iff-expired", okr, run.site(rs[0][0]) if rs else run.site(0), "reset_session on the true edge of session_expired, before the replay: %s" % okr, "expired session: nothing re-sent, abandoned operations fail"))
-    # retransmit body
-    rb_ = ctx.coroutine(r"client::context::Context::<[^>]*>::retransmit")
-    effs = ctx.effects(rb_)
-    w = [e for e in effs if e.kind == "TxWrite"]
-    it = [t for i, t in rb_.calls(r"VecDeque::iter$")]
-    rev = [t for i, t in rb_.calls(r"(Iterator::rev|DoubleEndedIterator::next_back|Iterator::skip|Iterator::filter|Iterator::take)$")]
-    okw = len(w) == 1 and len(it) == 1 and not rev and rb_.completion_of(w[0].inner_bb) is not None and \
-        any(a[0] == "field" and a[1] == SESSION and a[2] == "retrasmit_queue" for a in w[0].detail["buf"])
-    muts = buffer_like_mutations(rb_)
-    out.append(Inst("RESUME-ORDER", "replay-front-to-back", okw and not muts, rb_.site(w[0].inner_bb) if w else rb_.site(0),
-                    "writes=%d iter=%d reordering adaptors=%d awaited=%s mutations=%s" % (len(w), len(it), len(rev), bool(w and rb_.completion_of(w[0].inner_bb)), muts or "none"),
+        okr = okr and all(x in run.reachable_from(rb) or x == rb or run.dominates(rb, x) for x in reset_bbs)
+    out.append(Inst("RESUME-ORDER", "reset-iff-expired", okr, run.site(reset_bbs[0]) if reset_bbs else run.site(0), "the session is reset on the true edge of session_expired, before the replay: %s" % okr, "expired session: nothing re-sent, abandoned operations fail"))
+    # the replay loop
+    loop_blocks = {b_ for b_ in run.reach if rtb in run.reachable_from(b_) and b_ in run.reachable_from(rtb)} | {rtb}
+    before = {b_ for b_ in run.reach if rtb in run.reachable_from(b_)}
+    it = [(i, t) for i, t in run.calls(r"(VecDeque::iter|IntoIterator::into_iter)$") if i in before and any(a[0] == "field" and a[2] == "retrasmit_queue" for a in run.atoms(t["ops"][0]))]
+    rev = [(i, t) for i, t in run.calls(r"(Iterator::rev|DoubleEndedIterator::next_back|Iterator::skip|Iterator::filter|Iterator::take|Iterator::step_by|Iterator::skip_while|Iterator::take_while)$")
+           if i in before and any(a[0] == "field" and a[2] == "retrasmit_queue" for x in t["ops"] for a in run.atoms(x))]
+    # `for x in q.iter()` desugars to into_iter(iter(q)): an into_iter over an iterator already counted is not a second one
+    it = [(i, t) for i, t in it if not any(a[0] == "call" and re.search(r"(VecDeque::<[^>]*>::iter|VecDeque::iter)$", strip_generics(a[1]) if "<" in a[1] else a[1]) for a in run.atoms(t["ops"][0])) or (callee_name(t) or "").endswith("VecDeque::iter")]
+    okw = len(it) == 1 and not rev and comp is not None and len(loop_blocks) > 1
+    muts = buffer_like_mutations(run)
+    out.append(Inst("RESUME-ORDER", "replay-front-to-back", okw and not muts, run.site(rtb),
+                    "replay writes=%d iterators over the queue=%d reordering adaptors=%d awaited=%s inside a loop=%s mutations=%s" % (len(w), len(it), len(rev), comp is not None, len(loop_blocks) > 1, muts or "none"),
                     "every stored packet, original order, bytes unchanged, each write awaited"))
     # R5
     rsb = ctx.body(r"client::context::Context::<[^>]*>::reset_session$")
@@ -830,7 +866,7 @@ def buffer_like_mutations(body):
     out = []
     for i in sorted(body.reach):
         for st in body.blocks[i]["stmts"]:
-            if st["k"] == "assign" and "deref" in st["lhs"]["p"] and st["lhs"]["l"] > body.fn["arg_count"]:
+            if st["k"] == "assign" and "deref" in st["lhs"]["p"] and st["lhs"]["l"] > body.fn["arg_count"] and st["lhs"]["p"][-1] == "deref":
                 at = body.atoms({"l": st["lhs"]["l"], "p": []})
                 if any(a[0] == "field" and a[2] == "retrasmit_queue" for a in at):
                     out.append("%s:%d" % (body.fn["file"], st["line"]))
